@@ -31,6 +31,7 @@ from .base import DiameterAnswer
 from .base import DiameterRequest
 from .config import *
 from .constants import *
+from . import exceptions
 from .exceptions import BromeliaException
 from .setup import Diameter
 from .utils import is_3xxx_failure
@@ -40,6 +41,14 @@ from .utils import is_5xxx_failure
 
 worker_logger = logging.getLogger("Worker")
 bromelia_logger = logging.getLogger("Bromelia")
+
+
+#: What a route function may fail with: any ordinary exception, and the
+#: library's own errors (raised, for instance, when it builds an answer with a
+#: mandatory AVP missing), which do not derive from Exception.
+ROUTE_ERRORS = (Exception,) + tuple(error for error in vars(exceptions).values()
+                                    if isinstance(error, type) and
+                                    issubclass(error, BaseException))
 
 
 def get_application_string_by_id(application_id):
@@ -561,7 +570,7 @@ class Bromelia:
 
         try:
             answer = callback_function(request)
-        except Exception as e:
+        except ROUTE_ERRORS as e:
             answer = None
             bromelia_logger.exception(f"{logging_info} Error has been "\
                                       f"raised in callback_function: {e.args}")
